@@ -315,6 +315,7 @@ bool Table::Save() {
     return false;
   }
 
+  RIME_VERIF_CRASHPOINT("table.save");
   return ShrinkToFit();
 }
 
@@ -438,9 +439,11 @@ bool Table::Build(const Syllabary& syllabary,
     return false;
   }
 
+  RIME_VERIF_CRASHPOINT("table.build:before_tag");
   // at last, complete the metadata
   std::strncpy(metadata_->format, kTableFormatLatest,
                table::Metadata::kFormatMaxLength);
+  RIME_VERIF_CRASHPOINT("table.build:end");
   return true;
 }
 
